@@ -2,13 +2,17 @@
    Proved here (control-flow core model, every program / state / event / history):
    no task execution is created while the workflow is PAUSED, the pause is held until
    resume (or a stop), results of running actions are still recorded.
+   "After resume the run continues and finishes" is PROVED for join-free programs: under every
+   schedule of deliveries, pauses, resumes and stops a quiescent run has only final task executions
+   and a completed or PAUSED workflow (C10_resumed_run_finishes_joinfree).
    NOT proved (decided by trace correspondence + oracle only): "finishes with the same final
    state, task results and output as if it had never been paused" (C10_resume_same_statement),
    and the sub-workflow part of "its running sub-workflows are PAUSED" (no sub-workflows in
    the core model). *)
 From Coq Require Import List Bool.
 Require Import Mistral.Gen.States Mistral.Model.Engine.
-Require Import Mistral.Proofs.StatesProofs Mistral.Proofs.EngineWf Mistral.Proofs.EngineSafety Mistral.Proofs.EngineMore.
+Require Import Mistral.Proofs.StatesProofs Mistral.Proofs.EngineWf Mistral.Proofs.EngineSafety Mistral.Proofs.EngineMore
+               Mistral.Proofs.EngineLive.
 Import ListNotations.
 
 Theorem C10_no_creation_while_paused : forall sp s e,
@@ -47,6 +51,18 @@ Proof. exact result_accepted_completes. Qed.
 Print Assumptions C10_recorded_result_is_final.
 
 (* pause is acknowledged: after an accepted pause of a RUNNING workflow it is PAUSED *)
+(* pause / resume / stop at any points of any schedule never leave a join-free run hanging: once
+   nothing is pending every task execution is final and the workflow is completed, or PAUSED and
+   waiting for the next resume *)
+Theorem C10_resumed_run_finishes_joinfree : forall sp, nojoin sp -> forall u evs,
+  forallb live_ev evs = true ->
+  let s := run sp u evs in
+  wf_created s = true -> pend s = [] ->
+  (forall tid r, nth_error (tasks s) tid = Some r -> is_completed (t_state r) = true) /\
+  (is_completed (wf_state s) = true \/ wf_state s = PAUSED).
+Proof. exact no_stuck_joinfree. Qed.
+Print Assumptions C10_resumed_run_finishes_joinfree.
+
 Theorem C10_pause_acknowledged : forall sp s,
   wf_created s = true -> wf_state s = RUNNING ->
   wf_state (fst (step sp s EPause)) = PAUSED /\ snd (step sp s EPause) = Ok.
